@@ -1,13 +1,14 @@
 (** Property C14 -- redirect target: the last Location is resolved against the current URI.
     Statements only.  Proofs: proofs/C14_proofs.v (flow level), proofs/C14_rfc.v (parsing),
-    proofs/C14_rds.v (remove_dot_segments, merge), proofs/C14_resolve.v (normalisation, assembly).
+    proofs/C14_rds.v (remove_dot_segments, merge), proofs/C14_resolve.v (normalisation, assembly),
+    proofs/C14_script.v (the script language only performs the operations of [flow_step]).
     The independent transcription of RFC 3986 5.2 is proofs/C14_spec.v.
 
     Level note: this is a proof about the model.  [Url.resolve] models the url crate on the
     property's grammar only (see Url.v). *)
-From Hoot Require Import Base Chunk Body Httparse Parser Url Request Call Flow.
+From Hoot Require Import Base Chunk Body Httparse Parser Url Request Call Flow Script.
 From Hoot.proofs Require Import BytesLemmas C17_proofs C02_proofs C02_analysis C14_proofs.
-From Hoot.proofs Require Import C14_spec C14_rfc C14_rds C14_resolve.
+From Hoot.proofs Require Import C14_spec C14_rfc C14_rds C14_resolve C14_script.
 Open Scope N_scope.
 
 (* ------------------------------------------------------------------ vocabulary *)
@@ -68,10 +69,24 @@ Theorem c14_step_preserves_uri : forall f f',
   flow_step f f' ->
   cur_uri f' = cur_uri f /\ am_req (c_req (i_call f')) = am_req (c_req (i_call f)) /\
   am_unset (c_req (i_call f')) = am_unset (c_req (i_call f)).
-Proof.
-  intros f f' H. pose proof (flow_step_keeps _ _ H) as K. split; [apply keeps_cur_uri; exact K|].
-  destruct K as (K1 & _ & K3). auto.
-Qed.
+Proof. exact step_preserves. Qed.
+
+(** [flow_step] is complete for the operation language of Script.v (the one the harness replays
+    against the real crate): every script operation that leaves a flow in the state either leaves
+    the flow as it was, or performs a [flow_step], or is one of: create a flow, follow a redirect
+    ([as_new_flow]), switch to the flow the redirect produced.  So the current URI of the flow in
+    the script state only changes at those three operations. *)
+Theorem c14_script_covered : forall s o t f t' f',
+  s_obj s = ObFlow t f -> s_obj (fst (step s o)) = ObFlow t' f' ->
+  (f' = f \/ flow_step f f') \/
+  (exists r, o = ONew r) \/ o = OFollow \/ (exists p, o = OAsNewFlow p).
+Proof. exact script_covered. Qed.
+
+Theorem c14_script_preserves_uri : forall s o t f t' f',
+  s_obj s = ObFlow t f -> s_obj (fst (step s o)) = ObFlow t' f' ->
+  (forall r, o <> ONew r) -> o <> OFollow -> (forall p, o <> OAsNewFlow p) ->
+  cur_uri f' = cur_uri f.
+Proof. exact script_preserves_uri. Qed.
 
 (** Following a redirect: the new flow's URI is the resolution of the selected Location against
     the current URI of the flow that received the redirect. *)
@@ -103,11 +118,7 @@ Theorem c14_last_location : forall f input f' used rsp,
   (ls = [] -> i_location f' = None) /\
   (forall l x, ls = l ++ [x] -> i_location f' = Some x) /\
   i_status f' = Some (rs_status rsp).
-Proof.
-  intros f input f' used rsp H. destruct (try_response_location _ _ _ _ _ H) as [Hl Hs].
-  cbv zeta. rewrite Hl. split; [intros ->; reflexivity|]. split; [|exact Hs].
-  intros l x ->. apply last_opt_snoc.
-Qed.
+Proof. exact last_location. Qed.
 
 (* ------------------------------------------------------------------ the next head *)
 
@@ -135,15 +146,7 @@ Theorem c14_wire : forall f p f' next g c',
   prelude_line (c_req c') = line /\
   render_request_head (c_req c') = line ++ concat (map field_line (am_headers (c_req c'))) ++ CRLF /\
   (~ KnownClass f -> get_all (am_headers (c_req c')) (s2b "host") = [uri_host target]).
-Proof.
-  intros f p f' next g c' H Hp Ha. cbv zeta.
-  destruct (next_head _ _ _ _ _ _ H Hp Ha) as [H1 H2].
-  split; [|split; [exact H1|split]].
-  - destruct (as_new_flow_uri _ _ _ _ H) as (loc & t & _ & Hr & <-). eapply resolve_pq_nonempty; eauto.
-  - rewrite render_flat, H1. reflexivity.
-  - intros Hk. apply H2. unfold KnownClass in Hk.
-    destruct (get_all _ _); [reflexivity|exfalso; apply Hk; discriminate].
-Qed.
+Proof. exact next_wire. Qed.
 
 (** The next request carries the header fields of the request it replaces (so the known class is
     a property of the original request, whatever the hop). *)
@@ -152,10 +155,7 @@ Theorem c14_headers_inherited : forall f p f' next,
   rq_headers (am_request (c_req (i_call next))) = rq_headers (am_request (c_req (i_call f))) /\
   (KnownClass next <-> KnownClass f).
 Proof.
-  intros f p f' next H.
-  destruct (as_new_flow_shape _ _ _ _ H) as (orig & nm & keep & Hq & (A & _)).
-  assert (E : rq_headers (am_request (c_req (i_call next))) = rq_headers (am_request (c_req (i_call f)))).
-  { unfold am_request. rewrite A, Hq. reflexivity. }
+  intros f p f' next H. pose proof (headers_inherited _ _ _ _ H) as E.
   split; [exact E|]. unfold KnownClass. rewrite E. tauto.
 Qed.
 
@@ -167,11 +167,7 @@ Theorem c14_errors : forall f p,
                as_new_flow f p = Err BadLocationHeader) /\
   (forall loc, i_location f = Some loc -> i_status f <> None -> u_scheme (cur_uri f) <> [] ->
                resolve (cur_uri f) loc = None -> as_new_flow f p = Err BadLocationHeader).
-Proof.
-  intros f p. split; [apply as_new_flow_no_location|]. split.
-  - intros loc. apply as_new_flow_not_text.
-  - intros loc. apply as_new_flow_unresolvable.
-Qed.
+Proof. exact redirect_errors. Qed.
 
 (** The state of a flow that reaches Redirect for the first time: it has a status (see
     [c14_redirect_has_status]), its request has not been taken, and its URI is absolute. *)
@@ -183,9 +179,7 @@ Proof. reflexivity. Qed.
 Theorem c14_redirect_has_status : forall f f',
   recv_response_proceed f = Ok (Some (TRedirect, f')) \/ recv_body_proceed f = Ok (Some (TRedirect, f')) ->
   i_status f' <> None.
-Proof.
-  intros f f' [H|H]; [eapply recv_response_proceed_status|eapply recv_body_proceed_status]; eauto.
-Qed.
+Proof. exact redirect_has_status. Qed.
 
 (** In that state, for EVERY Location value (any byte string, or none): complete case analysis.
     An error produces no flow; a flow is produced only with the resolved URI. *)
@@ -207,10 +201,7 @@ Proof. intros f p site H. apply as_new_flow_no_panic. exact H. Qed.
 Theorem c14_target_absolute : forall base loc t,
   resolve base loc = Some t -> u_scheme base <> [] ->
   u_scheme t <> [] /\ u_auth t <> [] /\ u_pq t <> [].
-Proof.
-  intros base loc t H Hb. split; [eapply resolve_scheme_nonempty; eauto|].
-  split; [eapply resolve_auth_nonempty; eauto|eapply resolve_pq_nonempty; eauto].
-Qed.
+Proof. exact target_absolute. Qed.
 
 (* ------------------------------------------------------------------ resolve = RFC 3986 5.2 *)
 
@@ -294,7 +285,7 @@ Proof. exact rds_agree. Qed.
 
 Theorem c14_merge_matches_rfc : forall t rel,
   rfc_merge true (47 :: t) rel = merge (47 :: t) rel /\ rfc_merge true [] rel = merge [47] rel.
-Proof. intros t rel. split; [apply merge_agree_abs|apply merge_agree_nil]. Qed.
+Proof. exact merge_agree. Qed.
 
 (* ------------------------------------------------------------------ properties of resolve *)
 
@@ -335,10 +326,7 @@ Theorem c14_remove_dot_segments : forall p,
   (remove_dot_segments p = [] \/ exists t, remove_dot_segments p = 47 :: t) /\
   (remove_dot_segments p <> [] ->
    Forall (fun s => s <> [46] /\ s <> [46; 46]) (path_segments (remove_dot_segments p))).
-Proof.
-  intros p. split; [apply model_rds_idempotent|]. split; [apply model_rds_abs_or_empty|].
-  apply model_rds_segments.
-Qed.
+Proof. exact model_rds_properties. Qed.
 
 Theorem c14_path_segments_def : forall p, path_segments p = split_on 47 (tl p) [].
 Proof. reflexivity. Qed.
@@ -349,7 +337,7 @@ Theorem c14_rfc_remove_dot_segments : forall p,
   rfc_remove_dot_segments (rfc_remove_dot_segments p) = rfc_remove_dot_segments p /\
   (rfc_remove_dot_segments p <> [] ->
    Forall (fun s => s <> [46] /\ s <> [46; 46]) (path_segments (rfc_remove_dot_segments p))).
-Proof. intros p H. split; [apply rfc_rds_idempotent; exact H|apply rfc_rds_no_dots; exact H]. Qed.
+Proof. exact rfc_rds_properties. Qed.
 
 (** The path of a resolved URI: the result of remove_dot_segments, without "?". *)
 Theorem c14_result_path : forall base loc t,
@@ -475,6 +463,8 @@ Print Assumptions c14_flow_step_def.
 Print Assumptions c14_flow_steps_def.
 Print Assumptions c14_redirect_chain_def.
 Print Assumptions c14_step_preserves_uri.
+Print Assumptions c14_script_covered.
+Print Assumptions c14_script_preserves_uri.
 Print Assumptions c14_as_new_flow_uri.
 Print Assumptions c14_chain.
 Print Assumptions c14_resolve_opt_def.
